@@ -8,6 +8,7 @@ CPython's asyncio.Future on every (state, operation) pair is checked natively wh
 """
 import asyncio
 
+from bumble import l2cap as _l2cap
 from pyvc.contracts import Bool, Callback, Const, Inst, Int, IntRange, ListOf, Opt, model
 
 ENVIRONMENT = [
@@ -136,11 +137,49 @@ NEW_FUT = Inst(FUT_MODEL, st=Const(PENDING), guard=Const(0))  # what loop.create
 FUT_INLINE = ['Fut.*', 'TaskFut.*']
 model('contracts.c16_env:RecEmitter', fields=dict(listeners=Const([])), build=lambda fields, b: RecEmitter())
 EMITTER = Inst('contracts.c16_env:RecEmitter')
+model('contracts.c16_env:RecConnection', fields=dict(listeners=Const([]), handle=IntRange(0, 0xEFF)), build=lambda fields, b: RecConnection(fields['handle']))
+model('contracts.c16_env:RecChannel', fields=dict(listeners=Const([]), connection=Inst('contracts.c16_env:RecConnection'), source_cid=IntRange(0x40, 0xFFFF), sink=Const(None)),
+      build=lambda fields, b: RecChannel(fields['connection'].handle, fields['source_cid']))
+model('contracts.c16_env:RecDevice', fields=dict(handler=Const(None)), build=lambda fields, b: RecDevice())
 
 
 def _build_fut(cls, fields):
     f = cls(fields.get('st', PENDING), fields.get('guard', 0))
     return f
+
+
+class RecChannel(RecEmitter, _l2cap.LeCreditBasedChannel):
+    """an EATT channel as seen by the GATT server / client: an event emitter with the identifying attributes
+    (isinstance(x, l2cap.LeCreditBasedChannel) holds: att.is_enhanced_bearer)"""
+
+    EVENT_CLOSE = 'close'
+
+    def __init__(self, handle=0x40, source_cid=0x41):
+        RecEmitter.__init__(self)
+        self.connection = RecConnection(handle)
+        self.source_cid = source_cid
+        self.sink = None
+
+
+class RecConnection(RecEmitter):
+    """an ACL connection as a GATT bearer: an event emitter with a handle"""
+
+    EVENT_DISCONNECTION = 'disconnection'
+
+    def __init__(self, handle):
+        RecEmitter.__init__(self)
+        self.handle = handle
+
+
+class RecDevice:
+    """Device.create_l2cap_server(spec, handler): remembers the handler the L2CAP server will call for each new channel"""
+
+    def __init__(self):
+        self.handler = None
+
+    def create_l2cap_server(self, spec, handler=None):
+        self.handler = handler
+        return None
 
 
 class KeyView:
